@@ -577,7 +577,25 @@ def r3_name_result(sig, name="r"):
     return new, 1
 
 
+def r6_dep_2015(text):
+    """R6 (dependency source, 2015 edition only): bare trait objects `&mut Read` -> `&mut dyn Read`, and the error
+    type `Box<::std::error::Error>` -> the opaque stand-in `BoxDynError` (errors are only propagated by `?`; no
+    branch inspects them).  Marked so that the inversion is exact."""
+    n = 0
+    def a(m):
+        nonlocal n; n += 1
+        return "&mut /*R6*/dyn /*R6*/Read"
+    text = re.sub(r"&mut Read\b", a, text)
+    def b(m):
+        nonlocal n; n += 1
+        return "/*R6 " + m.group(0) + " R6*/BoxDynError"
+    text = re.sub(r"Box<::std::error::Error>", b, text)
+    return text, n
+
+
 def invert_rewrites(text):
+    text = text.replace("/*R6*/dyn /*R6*/", "")
+    text = re.sub(r"/\*R6 (.*?) R6\*/BoxDynError", lambda m: m.group(1), text, flags=re.S)
     text = text.replace("/*R1*/pub ", "")
     text = re.sub(r"/\*R2 (.*?) R2\*/", lambda m: m.group(1).replace("*\\/", "*/"), text, flags=re.S)
     text = re.sub(r"/\*R3\*/\(\w+: (.*?)\)/\*R3\*/", lambda m: m.group(1), text, flags=re.S)
